@@ -289,22 +289,24 @@ class MailboxData(MailboxDataInterface[Message]):
         maildir = self._maildir
         email_id = ObjectId.random_email_id()
         thread_id = ObjectId.random_thread_id()
+        # the file and its UID record appear as one step to everybody else
+        # who lists this mailbox, see reset()
         async with self.messages_lock.write_lock():
             maildir_msg = Message.to_maildir(append_msg, recent,
                                              self.maildir_flags)
             key = maildir.add(maildir_msg)
             filename = key + ':' + maildir_msg.get_info()
-        try:
-            async with UidList.with_write(self._path) as uidl:
-                fields = {'E': email_id.value.decode('ascii'),
-                          'T': thread_id.value.decode('ascii')}
-                new_rec = Record(uidl.next_uid, fields, filename)
-                uidl.next_uid += 1
-                uidl.set(new_rec)
-        except BaseException:
-            # do not leave a message behind that was never acknowledged
-            maildir.discard(key)
-            raise
+            try:
+                async with UidList.with_write(self._path) as uidl:
+                    fields = {'E': email_id.value.decode('ascii'),
+                              'T': thread_id.value.decode('ascii')}
+                    new_rec = Record(uidl.next_uid, fields, filename)
+                    uidl.next_uid += 1
+                    uidl.set(new_rec)
+            except BaseException:
+                # do not leave a message behind that was never acknowledged
+                maildir.discard(key)
+                raise
         return Message.from_maildir(
             new_rec.uid, maildir_msg, maildir, key, email_id, thread_id,
             self.maildir_flags)
@@ -327,10 +329,10 @@ class MailboxData(MailboxDataInterface[Message]):
         async with destination.messages_lock.write_lock():
             dest_key = dest_maildir.add(copy_msg)
             dest_filename = dest_key + ':' + copy_msg.get_info()
-        async with UidList.with_write(destination._path) as uidl:
-            new_rec = Record(uidl.next_uid, record.fields, dest_filename)
-            uidl.next_uid += 1
-            uidl.set(new_rec)
+            async with UidList.with_write(destination._path) as uidl:
+                new_rec = Record(uidl.next_uid, record.fields, dest_filename)
+                uidl.next_uid += 1
+                uidl.set(new_rec)
         return new_rec.uid
 
     async def move(self, uid: int, destination: MailboxData, *,
@@ -354,15 +356,15 @@ class MailboxData(MailboxDataInterface[Message]):
                     rec.key, dest_maildir, dest_subdir)
             except (KeyError, FileNotFoundError):
                 return None
-        async with UidList.with_write(self._path) as uidl:
-            try:
-                uidl.remove(uid)
-            except KeyError:
-                pass
-        async with UidList.with_write(destination._path) as uidl:
-            new_rec = Record(uidl.next_uid, rec.fields, new_filename)
-            uidl.next_uid += 1
-            uidl.set(new_rec)
+            async with UidList.with_write(self._path) as uidl:
+                try:
+                    uidl.remove(uid)
+                except KeyError:
+                    pass
+            async with UidList.with_write(destination._path) as uidl:
+                new_rec = Record(uidl.next_uid, rec.fields, new_filename)
+                uidl.next_uid += 1
+                uidl.set(new_rec)
         return new_rec.uid
 
     async def get(self, uid: int, cached_msg: CachedMessage) -> Message:
@@ -458,19 +460,22 @@ class MailboxData(MailboxDataInterface[Message]):
                         email_id, thread_id, self.maildir_flags)
 
     async def reset(self) -> MailboxData:
-        keys = await self._get_keys()
-        async with UidList.with_write(self._path) as uidl:
-            for rec in uidl.records:
-                keys.pop(rec.key, None)
-            for key, info in keys.items():
-                filename = key + ':' + info
-                email_id = ObjectId.random_email_id()
-                thread_id = ObjectId.random_thread_id()
-                fields = {'E': email_id.value.decode('ascii'),
-                          'T': thread_id.value.decode('ascii')}
-                new_rec = Record(uidl.next_uid, fields, filename)
-                uidl.next_uid += 1
-                uidl.set(new_rec)
+        # under the lock no message of this process is between its file and
+        # its UID record, so what has no record was delivered from outside
+        async with self.messages_lock.read_lock():
+            keys = self._list_keys()
+            async with UidList.with_write(self._path) as uidl:
+                for rec in uidl.records:
+                    keys.pop(rec.key, None)
+                for key, info in keys.items():
+                    filename = key + ':' + info
+                    email_id = ObjectId.random_email_id()
+                    thread_id = ObjectId.random_thread_id()
+                    fields = {'E': email_id.value.decode('ascii'),
+                              'T': thread_id.value.decode('ascii')}
+                    new_rec = Record(uidl.next_uid, fields, filename)
+                    uidl.next_uid += 1
+                    uidl.set(new_rec)
         self._uid_validity = uidl.uid_validity
         self._next_uid = uidl.next_uid
         return self
@@ -495,15 +500,18 @@ class MailboxData(MailboxDataInterface[Message]):
                                first_unseen, next_uid)
 
     async def _get_keys(self) -> dict[str, str]:
-        keys: dict[str, str] = {}
         async with self.messages_lock.read_lock():
-            for key in self._maildir.keys():
-                try:
-                    msg = self._maildir.get_message_metadata(key)
-                except (KeyError, FileNotFoundError):
-                    pass
-                else:
-                    keys[key] = msg.get_info()
+            return self._list_keys()
+
+    def _list_keys(self) -> dict[str, str]:
+        keys: dict[str, str] = {}
+        for key in self._maildir.keys():
+            try:
+                msg = self._maildir.get_message_metadata(key)
+            except (KeyError, FileNotFoundError):
+                pass
+            else:
+                keys[key] = msg.get_info()
         return keys
 
 
